@@ -21,7 +21,8 @@ LEVEL_TEXT = ("For every generated IR set the whole request grid (2 x 5 modes x 
               "statement's fallback order, clamping, off/toggle rules, payload and length rendering. Requests the statement "
               "leaves open are counted and skipped. Sets are sampled; the grid per set is complete.")
 RULE = ("case = IR-set spec (expanded deterministically) + request grid; non-trivial request = exact key absent (fallback used), "
-        "temperature clamped, toggle prefix used, unsupported mode, or text length >= 252 or <= 11; distinct by (set, request).")
+        "temperature clamped, toggle prefix used, unsupported mode, or text length >= 252 or <= 11; distinct by (set, request)."
+        ' IR-set shapes include toggle sets that store a plain off key, auto-mode keys with a temperature, and a lowest temperature listed once and first; after reading supported_modes the returned list is cleared and read again.')
 ASSUMPTIONS = [
     "key grammar of ref/irset.py (aa|ad|aw[_fN[_d1]], ar|ah TT[_fN[_d1]], off, on_<key>, FUN_d0/FUN_d1) as in the Switcher IR database",
     "requests none of whose listed candidates is stored, 'off' with an unsupported mode on a non-toggle set, and per-mode feature flags are unspecified",
